@@ -122,6 +122,17 @@ type zzWorld struct {
 	narrowTS bool
 }
 
+// zzWideTS spreads 8 symbolic bits over a 64-bit timestamp: the top nibble
+// (bits 60..63, includes the sign bit) and the bottom nibble. 256 values, among
+// them 0 (= no commit), values above 2^63 and values differing only in the low
+// or only in the high word; every order type of up to 16 timestamps occurs.
+// Fully free 64-bit timestamps are not used: the latch code only compares
+// timestamps, and z3 needs minutes (and finally times out) to refute
+// transitivity chains of five and more 64-bit comparisons.
+func zzWideTS(b uint8) uint64 {
+	return uint64(b>>4)<<60 | uint64(b&15)
+}
+
 // zzTSBase is ComposeTS(1_700_000_000_000 ms, 0).
 const zzTSBase = uint64(1_700_000_000_000) << 18
 
@@ -154,7 +165,7 @@ func (w *zzWorld) zzDrawTxn(t *zzTxn) [][]byte {
 	if w.narrowTS {
 		t.start = zzTSBase | uint64(zzU16("startTS.logical"))
 	} else {
-		t.start = zzU64("startTS")
+		t.start = zzWideTS(zzU8("startTS.bits"))
 	}
 	var keys [][]byte
 	for _, i := range sub {
@@ -210,7 +221,7 @@ func (w *zzWorld) zzBeforeUnlock(t *zzTxn) {
 }
 
 // zzDrawCommit: commit timestamp of granted transaction t. Wide mode: any
-// 64-bit value (0 = commit failed, also values below startTS). Narrow mode: a
+// zzWideTS value (0 = commit failed, also values below startTS). Narrow mode: a
 // successful commit, commitTS > startTS (keeps run()'s `commitTS > startTS`
 // from forking; the other cases are covered by ZZ_C17_steps).
 func (w *zzWorld) zzDrawCommit(t *zzTxn) uint64 {
@@ -219,7 +230,7 @@ func (w *zzWorld) zzDrawCommit(t *zzTxn) uint64 {
 		zzAssume(c > t.start)
 		return c
 	}
-	return zzU64("commitTS")
+	return zzWideTS(zzU8("commitTS.bits"))
 }
 
 // zzSettle lets waiter goroutines observe wg.Done. Under the engine zzRunAll is
